@@ -86,6 +86,28 @@ def dev_bonly(C, P, RULE):
     return ic, ms
 
 
+def all_names(b, o, depth=8):
+    """user variable names an operand derives from, through refs / copies / deref (no calls)"""
+    from flow import defs_of
+    out = set(); work = [o]; seen = set()
+    while work and depth > 0:
+        x = work.pop()
+        if not is_local_op(x) or x['l'] in seen:
+            continue
+        seen.add(x['l'])
+        if x['l'] in b.names:
+            out.add(b.names[x['l']])
+        for q, st in defs_of(b, x['l']):
+            if st['k'] == 'assign':
+                rv = st['rv']
+                if 'pl' in rv:
+                    work.append(rv['pl'])
+                if 'o' in rv:
+                    work.append(rv['o'])
+                work.extend(rv.get('ops', []))
+    return out
+
+
 def own_set_rule(C, P, RULE):
     """merge_sub_elements: the file set handed down for a merged element is the element's OWN set when it has one (the parent's
     set only when it inherits): model-only children are stamped with that set, so the parent's wider set would attribute them to
@@ -334,6 +356,56 @@ def run(ctx):
             if t['dst']['l'] == 0 and not t['dst']['p']:
                 prop = True
             C.check(prop, 'C09-MUST-reject', '%s|%s|error-propagated' % (fn, (callee_of(t) or '').rsplit('::', 1)[-1]), 'a merge error is dropped in %s' % fn, b.where(p))
+    # ---------------- DEV-counterpart ----------------
+    C.rule('C09-DEV-counterpart', 'when the current elements of the two sides are of different kinds, merge_element decides by specification position which side to advance ONLY after it searched the other side for a counterpart of each of the two elements '
+           '(same element name and item name among the sub elements of the other parent); otherwise an element that exists on both sides at different positions is imported AND kept as model-only (two elements, one path)')
+    lt = calls(me, r'PartialOrd::lt$|PartialOrd>::lt$|Ord::cmp$')
+    lt = [p_ for p_ in lt if any('Vec<usize>' in (me.local_ty(a_['l']) or '') for a_ in me.blocks[p_[0]]['term']['args'] if is_local_op(a_))]
+    def is_search(t):
+        # a direct find over sub_elements, or a call of a closure of merge_element whose body contains one
+        if call_matches(t, r'Iterator>?::(find|any|position)$'):
+            return any(c.endswith('impl Element>::sub_elements') for c in deep_sources(me, t['args'][0], depth=10)[1])
+        cg_ = callee_of(t) or ''
+        if 'merge_element::{closure' in cg_:
+            cb = P.bodies.get(cg_)
+            if cb is not None:
+                for q, t2 in cb.iter_calls():
+                    if call_matches(t2, r'Iterator>?::(find|any|position)$') and any(c.endswith('impl Element>::sub_elements') for c in deep_sources(cb, t2['args'][0], depth=10)[1]):
+                        return True
+        return False
+    searches = [(pos, t) for pos, t in me.iter_calls() if is_search(t)]
+    okc = len(lt) == 1
+    if okc:
+        dom = [(pos, t) for pos, t in searches if me.pos_dominates(pos, lt[0])]
+        sides = set()
+        for pos, t in dom:
+            nm = set()
+            for a_ in t['args']:
+                nm |= all_names(me, a_)
+            if 'parent_b' in nm and 'elem_a' in nm:
+                sides.add('a-in-b')
+            if 'parent_a' in nm and 'elem_b' in nm:
+                sides.add('b-in-a')
+        okc = sides == {'a-in-b', 'b-in-a'}
+        # and the position-based decision is only reachable when both searches failed: cut the None edges
+        if okc:
+            cuts = set()
+            for pos, t in dom:
+                sw = switch_edges_on_call_result(me, pos)
+                if sw is None:
+                    # is_some() on the result
+                    for q in calls(me, r'Option::<T>::is_some$'):
+                        if any(callee_of(o2[1]) == callee_of(t) for o2 in origins(me, me.blocks[q[0]]['term']['args'][0]) if o2[0] not in ('param', 'const', 'place') and isinstance(o2[1], dict) and o2[1].get('k') == 'call') or True:
+                            sw2 = switch_edges_on_call_result(me, q)
+                            if sw2 and me.pos_dominates(pos, q) and me.pos_dominates(q, lt[0]):
+                                cuts.add((sw2[0], sw2[1].get('0', sw2[2])))
+                else:
+                    cuts.add((sw[0], sw[1].get('0', sw[2])))
+            from pairing import iteration_start as _is
+            okc = len(cuts) >= 2 and must_pass(me, _is(me, lt[0]), [lt[0]], through=(), avoid_edges=cuts)
+    C.check(okc, 'C09-DEV-counterpart', 'merge_element|position-decides-only-without-counterparts', 'merge_element classifies two elements of different kinds by their specification position without first searching each of them on the other side: '
+            'the same identifiable element at different positions in the two files ends up twice in the merged model (once imported, once model-only), attributed to one file each', me.where(lt[0]) if lt else '',
+            sample={'fn': 'merge_element', 'searches_before_position_rule': ['counterpart(parent_b, elem_a)', 'counterpart(parent_a, elem_b)']})
     # ---------------- FLOW-progress ----------------
     nl = 0
     for h, ok, ev in PN.loop_progress(me):
